@@ -1133,6 +1133,63 @@ def work_projadverb(chunk):
     return st.d
 
 
+# part i: a function used BY NAME as the verb of an adverb, the same adverb node evaluated twice (function body called
+# twice / the same program text evaluated twice / a local that holds another function in the next call) with the name
+# bound to another function in between.  Expected: what the substituted function literal gives.
+def rebind_items():
+    monads = ['{x+1}', '{x*10}', '{-x}']
+    dyads = ['{x+y}', '{x-y}', '{x,y}']
+    arg = '[1 2 3]'
+    out = []
+    for fns, forms in ((monads, [("f'x", "%s'" + arg, 1)]),
+                       (dyads, [('f/x', '%s/' + arg, 1), ('f\\x', '%s\\' + arg, 1), ("f:'x", "%s:'" + arg, 1),
+                                ("x f'y", arg + "%s'" + arg, 2)])):
+        for f1 in fns:
+            for f2 in fns:
+                if f1 == f2:
+                    continue
+                for body, want, nargs in forms:
+                    args = arg if nargs == 1 else arg + ';' + arg
+                    # (1) in a function body called twice
+                    out.append((['f::' + f1, 'e::{' + body + '}', 'e(' + args + ')', 'f::' + f2, 'e(' + args + ')'], want % f2))
+                    # (2) the same top-level text evaluated twice
+                    top = (want % 'f')
+                    out.append((['f::' + f1, top, 'f::' + f2, top], want % f2))
+                    # (3) a local holds the function: another one in the next call
+                    lbody = body.replace('f', 'h')
+                    if nargs == 1:
+                        out.append((['app::{[h];h::y;' + lbody + '}', 'app(' + arg + ';' + f1 + ')', 'app(' + arg + ';' + f2 + ')'],
+                                    want % f2))
+                    else:
+                        out.append((['app::{[h];h::z;' + lbody + '}', 'app(' + args + ';' + f1 + ')', 'app(' + args + ';' + f2 + ')'],
+                                    want % f2))
+    return out
+
+
+def work_rebind(chunk):
+    st = Stats()
+    for progs, want in chunk:
+        k = KlongInterpreter()
+
+        def seq():
+            r = None
+            for p in progs:
+                r = k(p)
+            return r
+        obs = outcome(seq)
+        exp = outcome(lambda: KlongInterpreter()(want))
+        st.d['evals'] += len(progs) + 1
+        st.d['calls'] += 1
+        st.d['states'] += 1
+        st.form('named-verb-rebound-between-evaluations')
+        observed = show_outcome(obs)
+        st.d['outcomes'].add(hash(observed))
+        if exp[0] == 'ok' and obs != exp:
+            st.violation(';'.join(progs), observed, show_outcome(exp) + '  (= ' + want + ')', dict(part='i', programs=progs),
+                         snippet_for(progs), 'adverb-verb-name-not-resolved-at-evaluation')
+    return st.d
+
+
 def work_projtime(chunk):
     st = Stats()
     for progs, want in chunk:
@@ -1270,11 +1327,13 @@ def run(cfg):
     part_g = work_params(items_g)
     items_h = [c for c in PROJ_ADVERB if c[1] is not None]
     part_h = work_projadverb(items_h)
+    items_i = rebind_items()
+    part_i = work_rebind(items_i)
     t_inline = round(time.time() - t0, 1)
     for name, items, part, wall in (('a', items_a, pooled['a'], t_pool), ('b', items_b, part_b, t_inline),
                                     ('c', items_c, pooled['c'], t_pool), ('d', items_d, part_d, t_inline),
                                     ('e', items_e, part_e, t_inline), ('f', items_f, part_f, t_inline), ('g', items_g, part_g, t_inline),
-                                    ('h', items_h, part_h, t_inline)):
+                                    ('h', items_h, part_h, t_inline), ('i', items_i, part_i, t_inline)):
         parts[name] = dict(items=len(items), wall_s_shared=wall, evals=part.get('evals', 0),
                            calls=part.get('calls', 0),
                            states=part.get('states', 0), violations=len(part.get('violations', [])),
@@ -1318,6 +1377,9 @@ def run(cfg):
                              'every body at nesting depth 1, 2, 3'),
                     len(cfg.pick(FAULT_TUPLES_Q, FAULT_TUPLES_T)), len(BATTERY)),
             'h': '%d programs in which a projection with a non-literal fixed argument is completed by an adverb or @' % len(items_h),
+            'i': '%d programs: a function used by name as adverb verb (each, over, scan, each-pair, each-2), the same node '
+                 'evaluated twice (function called twice / same text twice / local holding another function) with the name '
+                 'rebound in between; all ordered pairs of 3 monads / 3 dyads' % len(items_i),
             'g': '%d programs that assign to x, y, z inside functions while globals of those names exist' % len(PARAM_CASES),
             'f': '%d programs in which the fixed argument of a projection is rebound / has a side effect between the steps' % len(PROJ_TIME),
             'e': '%d functions that declare locals and recurse through .f x depths 0..%d, called directly and from another '
